@@ -240,6 +240,44 @@ theorem Inside.shift {bd : List (K × K)} {q t : List K} (h : Inside bd q) (hl :
       refine List.Forall₂.cons ?_ (ih (by simpa using hl))
       exact ⟨by linarith [h.1], by linarith [h.2]⟩
 
+
+/-! ### the common box of several rows -/
+
+theorem hullBoxes_inside : ∀ {l : List (List (K × K))} {h b : List (K × K)} {p : List K},
+    hullBoxes l = some h → b ∈ l → Inside b p → Inside h p := by
+  intro l
+  induction l with
+  | nil => intro h b p hh; simp [hullBoxes] at hh
+  | cons b0 rest ih =>
+    intro h b p hh hb hi
+    cases rest with
+    | nil =>
+      simp only [hullBoxes, Option.some.injEq] at hh
+      simp only [List.mem_singleton] at hb
+      subst hh hb; exact hi
+    | cons b1 bs =>
+      simp only [hullBoxes] at hh
+      split at hh
+      · rename_i h' hh'
+        split at hh
+        · rename_i hl
+          simp only [Option.some.injEq] at hh
+          subst hh
+          rcases List.mem_cons.1 hb with rfl | hb
+          · exact hi.hull_left hl
+          · exact (ih hh' hb hi).hull_right hl
+        · simp at hh
+      · simp at hh
+
+theorem rowsHull_inside {f : Env K → Option (List (K × K))} {ρs : List (Env K)} {h : List (K × K)} {ρ : Env K} {p : List K}
+    (hh : rowsHull f ρs = some h) (hρ : ρ ∈ ρs) (hi : ∀ b, f ρ = some b → Inside b p) : Inside h p := by
+  unfold rowsHull at hh
+  split at hh
+  · rename_i l hl
+    obtain ⟨b, hb, e⟩ := mapOpt_mem hl ρ hρ
+    exact hullBoxes_inside hh hb (hi b e)
+  · simp at hh
+
 /-! ### convexity -/
 
 /-- a point `a + s (b − a) + t (c − a)`, `s, t ∈ [0,1]`, of a parallelogram lies between the extreme
